@@ -645,20 +645,25 @@ func zzC14Carves(c *zzC14Call, fam string, s, e int64, cls int) {
 	vrt.Carve("C14-key-multiple-values", c.keyMode == 8)
 	// :count nil is the CLHS default ("integer or nil") but slip rejects it
 	vrt.Carve("C14-valid-args-rejected", c.cntMode == 1 && fam == "remove")
+	// (one Carve call per id and path: in a probe run every call with the
+	// probed id assumes its region)
 	// :end beyond the length is silently clamped to the length
-	vrt.Carve("C14-invalid-bounds-accepted", cls == zzC14BEndBig)
+	inv := cls == zzC14BEndBig
 	// :start beyond :end (or beyond the length) is silently an empty range;
 	// find/position slice the sequence and so signal an error (with the text
 	// of a Go slice fault) unless start >= length
 	switch fam {
 	case "find", "position":
-		vrt.Carve("C14-invalid-bounds-accepted", cls == zzC14BStartGt && int64(c.n) <= s)
+		inv = inv || (cls == zzC14BStartGt && int64(c.n) <= s)
 	default:
-		vrt.Carve("C14-invalid-bounds-accepted", cls == zzC14BStartGt)
+		inv = inv || cls == zzC14BStartGt
 	}
 	if fam == "substitute" {
 		// a negative :start is clamped to 0, a negative :end means "the length"
-		vrt.Carve("C14-invalid-bounds-accepted", cls == zzC14BNegS || cls == zzC14BNegE)
+		inv = inv || cls == zzC14BNegS || cls == zzC14BNegE
+	}
+	vrt.Carve("C14-invalid-bounds-accepted", inv)
+	if fam == "substitute" {
 		// :count is decremented per element examined, not per substitution;
 		// 0 still substitutes once, a negative count means "all"
 		vrt.Carve("C14-substitute-count-per-examined", c.cntMode == 2 && s < e && c.count < e-s)
